@@ -29,7 +29,8 @@ RULE = (
     "with_schema x {deserialization, serialization}: generation terminates (watchdog); the result validates against the "
     "meta-schema of the dialect it declares; every $ref resolves to a definition (inline $defs or definitions_schema); "
     "definitions = exactly the names the reference-count model predicts; no unreachable definition; "
-    "definitions_schema == inline $defs. distinct_nontrivial counts distinct (ctor-pair shape, options, set of "
+    "definitions_schema == inline $defs; definitions_schema over every list of <=3 (thorough 4) entries of a menu of plain "
+    "types and (type, dynamic conversion) pairs: union of the entries alone (all_refs), order-independent, no dangling ref. distinct_nontrivial counts distinct (ctor-pair shape, options, set of "
     "definition names) tuples."
 )
 
@@ -719,12 +720,85 @@ def run_worlds(st: infra.Stats):
     st.count("worlds", len(mod.EXPECT) + len(mod.REFUSED) + len(mod.REFUSED_BOTH))
 
 
+LISTS_SRC = '''
+@dataclass
+class LFoo:
+    a: int = 0
+@dataclass
+class LBar:
+    b: str = ""
+@dataclass
+class LHold:
+    f: LFoo = field(default_factory=LFoo)
+    g: Optional[LFoo] = None
+def foo_to_bar(foo: LFoo) -> LBar: return LBar(str(foo.a))
+def bar_from_foo(foo: LFoo) -> LBar: return LBar(str(foo.a))
+SER_MENU = {"Foo": LFoo, "Bar": LBar, "List[Foo]": List[LFoo], "Optional[Foo]": Optional[LFoo], "Dict[str,Foo]": Dict[str, LFoo], "Hold": LHold,
+            "(Foo,foo_to_bar)": (LFoo, foo_to_bar), "(List[Foo],foo_to_bar)": (List[LFoo], foo_to_bar)}
+DES_MENU = {"Foo": LFoo, "Bar": LBar, "List[Bar]": List[LBar], "Optional[Bar]": Optional[LBar], "Dict[str,Bar]": Dict[str, LBar], "Hold": LHold,
+            "(Bar,bar_from_foo)": (LBar, bar_from_foo), "(List[Bar],bar_from_foo)": (List[LBar], bar_from_foo)}
+'''
+
+
+def run_definition_lists(st: infra.Stats, tier: str):
+    """definitions_schema over LISTS of entries, plain types and documented (type, dynamic conversion) pairs: every list of
+    length <= 3 (thorough: 4) over a menu of 8 entries sharing two classes. Oracle: with all_refs=True the definitions are
+    the union of the definitions of each entry alone (same bodies); with all_refs=False they do not depend on the order of
+    the list; every $ref of the schema of an entry generated with a ref_factory resolves in them (all_refs=True)."""
+    import itertools
+
+    mod = exec_source(PRELUDE + LISTS_SRC)
+    prefix = "#/components/schemas/"
+    for side, menu, fn in (("serialization", mod.SER_MENU, serialization_schema), ("deserialization", mod.DES_MENU, deserialization_schema)):
+        alone = {}
+        ext_refs = {}
+        for n, e in menu.items():
+            alone[n] = json.loads(json.dumps(definitions_schema(**{side: [e]}, all_refs=True)))
+            tp, conv = e if isinstance(e, tuple) else (e, None)
+            refs: List[str] = []
+            collect_refs(json.loads(json.dumps(fn(tp, conversion=conv, all_refs=True, ref_factory=lambda r: prefix + r, with_schema=False))), refs)
+            ext_refs[n] = {r[len(prefix):] for r in refs}
+        maxlen = 4 if tier == "thorough" else 3
+        for k in range(2, maxlen + 1):
+            for names in itertools.permutations(menu, k):
+                entries = [menu[n] for n in names]
+                base = {"label": "lists:" + side, "options": [side, list(names)]}
+                st.case("definition_lists", side, names)
+                try:
+                    d_all = json.loads(json.dumps(definitions_schema(**{side: entries}, all_refs=True)))
+                    d_min = json.loads(json.dumps(definitions_schema(**{side: entries}, all_refs=False)))
+                    d_min_sorted = json.loads(json.dumps(definitions_schema(**{side: [menu[n] for n in sorted(names)]}, all_refs=False)))
+                except Exception as e:
+                    st.violation(dict(base, signature={"kind": "definitions_list_exception", "exc": type(e).__name__, "side": side}, what=f"definitions_schema({side}={list(names)}) raised {e!r}"[:300]))
+                    continue
+                union: Dict[str, Any] = {}
+                for n in names:
+                    union.update(alone[n])
+                if d_all != union:
+                    st.violation(dict(base, signature={"kind": "definitions_list_union", "side": side, "missing": sorted(set(union) - set(d_all))[:2], "extra": sorted(set(d_all) - set(union))[:2]}, what=f"definitions_schema({side}={list(names)}, all_refs=True) = {sorted(d_all)}, the entries alone give {sorted(union)}"[:400]))
+                dangling = sorted({r for n in names for r in ext_refs[n]} - set(d_all))
+                if dangling:
+                    st.violation(dict(base, signature={"kind": "definitions_list_dangling", "side": side, "refs": dangling[:2]}, what=f"definitions_schema({side}={list(names)}, all_refs=True) lacks {dangling} referenced by the schemas of its entries"[:400]))
+                if d_min != d_min_sorted:
+                    st.violation(dict(base, signature={"kind": "definitions_list_order", "side": side}, what=f"definitions_schema({side}=...) depends on the order of the list: {sorted(d_min)} for {list(names)}, {sorted(d_min_sorted)} for {sorted(names)}"[:400]))
+    import sys
+
+    sys.modules.pop(mod.__name__, None)
+
+
 def work(tier, widx, nworkers, st, extra):
     import os
 
     signal.signal(signal.SIGALRM, _alarm)
     if widx == 0 and os.environ.get("VERIF_ONLY") in (None, "", "world"):
         run_worlds(st)
+    if widx == (1 % nworkers) and os.environ.get("VERIF_ONLY") in (None, "", "world", "lists"):
+        try:
+            run_definition_lists(st, tier)
+        except Exception:
+            import traceback
+
+            st.violation({"signature": {"kind": "harness_error"}, "harness_error": True, "what": "definition lists", "traceback": traceback.format_exc()[-2000:]})
     for i, label, spec in dc.my_types(tier, widx, nworkers):
         signal.alarm(60)
         try:
@@ -757,6 +831,8 @@ def replay(path: str) -> int:
     signal.signal(signal.SIGALRM, _alarm)
     if v["label"].startswith("world:"):
         run_worlds(st)
+    elif v["label"].startswith("lists:"):
+        run_definition_lists(st, "thorough")
     else:
         for lab, spec in gen_types("thorough"):
             if lab == v["label"]:
